@@ -1614,6 +1614,10 @@ func (g Gateway) SubscribeToEvents(in *hydrapb.SubscribeToEventsRequest, eventSe
 	// Get the server context
 	hydraInterface := g.ZeusInterface.GetHydra()
 
+	// gRPC forbids concurrent SendMsg calls on one stream, and this callback runs on the
+	// goroutine of whichever writer changed the swamp: serialise the sends per subscriber.
+	var sendMu sync.Mutex
+
 	eventCallbackFunction := func(event *swamp.Event) {
 
 		if event == nil {
@@ -1667,6 +1671,8 @@ func (g Gateway) SubscribeToEvents(in *hydrapb.SubscribeToEventsRequest, eventSe
 			verifhook.Point("events.send.pre", eventServer)
 		}
 		// send the message to the client
+		sendMu.Lock()
+		defer sendMu.Unlock()
 		if verifhook.Enabled {
 			verifhook.Point("events.send.enter", eventServer)
 		}
